@@ -6,6 +6,7 @@ compute_taxes_and_transfers; the observed numbers are compared with the predicte
 on the same data (the evaluation of a TLC-printed term is a format-level step)."""
 from __future__ import annotations
 
+import os
 import math
 import random
 from pathlib import Path
@@ -128,7 +129,7 @@ def replay_one(job):
 
 def run_toy(chk, quick, rnd, pid, kinds=None):
     """Returns list of mismatch records (each with `term`); counts go into chk."""
-    cfg = tlc.SPEC_DIR / f"_gen_toy_{pid}.cfg"
+    cfg = tlc.SPEC_DIR / f"_gen_toy_{pid}_{os.getpid()}.cfg"
     cfg.write_text(f"CONSTANTS\n  Small = {'TRUE' if quick else 'FALSE'}\n  WithPid = FALSE\nSPECIFICATION Spec\nCHECK_DEADLOCK FALSE\n")
     dump = chk.work / "toy"
     try:
